@@ -40,6 +40,12 @@ func (r *DecoratorResolver) ResolveIdent(file *ast.File, parent ast.Node, parent
 			// not a pkgname -> not a remote identifier
 			return "", nil
 		}
+		if pn.Imported().Path() == "C" {
+			// the cgo pseudo-package (types.Config.FakeImportC) is not a package that can be
+			// imported under another name or resolved: C.x stays a selector, as the syntax-only
+			// resolver leaves it
+			return "", nil
+		}
 		return pn.Imported().Path(), nil
 	}
 
